@@ -622,6 +622,19 @@ def do_compute(m: Machine, step):
         tr.quaternion_multiply(quat[i], quat[j])
         tr.quaternion_inverse(quat[i])
         tr.quaternion_slerp(quat[i], quat[j], 0.3)
+        # a caller-owned table of Euler angles, handed over as 0-d views
+        # (what arr[i, k, ...], np.squeeze or a tensor's .numpy() give)
+        E = np.array(a.obj.get_orientations_euler("sxyz"), dtype=float)
+        E0 = E.copy()
+        tr.quaternion_from_euler(E[i, 0, ...], E[i, 1, ...], E[i, 2, ...])
+        tr.euler_matrix(E[j, 0, ...], E[j, 1, ...], E[j, 2, ...])
+        tr.quaternion_about_axis(E[i, 2, ...], pos[j])
+        tr.rotation_matrix(E[j, 0, ...], pos[i] + 1.0)
+        if E.tobytes() != E0.tobytes():
+            raise Violation("C16", "argument-changed", op="compute",
+                            fn="transformations (Euler angles given as 0-d "
+                            "arrays)", rows=[int(k) for k in np.nonzero(
+                                np.any(E != E0, axis=1))[0][:4]])
         T.calc_angular_speed(poses[i], poses[j], 0.0, 1.0)
         T.calc_speed(pos[i], pos[j], 0.0, 1.0)
         tr.unit_vector(pos[i])
@@ -717,6 +730,14 @@ def do_compute(m: Machine, step):
         res = m.results[keys[0]][0]
         trajs = list(res.trajectories.values())
         if len(trajs) < 2 or any(t.num_poses < 2 for t in trajs):
+            return
+        # the trajectories of a Result are the very objects the metric was
+        # given: a later reduction of one of them makes the Result unplottable
+        # (lengths differ from each other / from the error array), which
+        # plot_result rightly refuses
+        n_err = len(res.np_arrays.get("error_array", ()))
+        if trajs[0].num_poses != trajs[1].num_poses or (
+                trajs[1].num_poses not in (n_err, n_err + 1)):
             return
         import argparse
         import matplotlib.pyplot as plt
